@@ -87,7 +87,7 @@ fn vp_native_multipart_roundtrip() {
     } } } }
     // larger forms, names and filenames with blanks / non-ASCII / '=', MIME types with parameters, empty and 1-byte files
     let names = ["plain", "with space", "ünï-cødé", "a=b", "x"];
-    let mimes = [None, Some("text/plain; charset=utf-8"), Some("application/x-custom+json"), Some("image/svg+xml")];
+    let mimes = [None, Some("text/plain; charset=utf-8"), Some("application/x-custom+json"), Some("application/x-demo; token=AbCdEF"), Some("image/svg+xml"), Some("multipart/mixed; boundary=InnerBOUNDARY42")];
     for ntext in [0usize, 1, 5] { for nfiles in [0usize, 1, 3, 4] { for variant in 0..4usize {
         let mut b = MultipartBuilder::new();
         let mut want: Vec<Part> = Vec::new();
